@@ -613,19 +613,22 @@ def _gen_case(rng, tier, maxb=None, nops=None, selfrename=False, async_=False):
             # ASYNC case: Keep writes of background flushes are parked (`hold`) and completed later
             # (`release`), so flushes land while/after the files are truncated and rewritten
             q = rng.random()
+            last = ops[-1].split(",")[0] if ops else ""
             if not held[0] and q < 0.10:
                 emit("hold")
                 held[0] = True
                 continue
-            if held[0] and q < 0.08:
+            # after a delayed flush a shrinking truncate is the interesting follow-up (the in-flight
+            # segment shrinks in place), and after that the flush should land soon
+            if held[0] and (q < 0.08 or (last == "trunc" and q < 0.35)):
                 emit("release")
                 held[0] = False
                 continue
-            if held[0] and q < 0.22:
+            if held[0] and q < 0.22 and last != "flush":
                 p = _path(rng, fs, "dir") if rng.random() < 0.3 else "@"
                 emit("flush,%s,%d" % (p, rng.choice([1, 1, 0])))
                 continue
-            if held[0] and q < 0.36 and hs:
+            if held[0] and hs and (q < 0.36 or (last == "flush" and q < 0.75)):
                 h = rng.choice(hs)
                 cur = len(fs.h[h].ino.data)
                 emit("trunc,%s,%d" % (h, rng.randint(0, cur) if rng.random() < 0.8 else _size(rng, maxb, cur)))
@@ -746,7 +749,8 @@ def generate(rng, tier):
         cases.append(_gen_case(rng, tier, maxb=PROD, nops=rng.randint(10, 60)))
     # ASYNC cases: flush completions delayed across truncates/writes (no shapes compared, see driver)
     for _ in range(60 if tier == "quick" else 1500):
-        cases.append(_gen_case(rng, tier, nops=rng.randint(15, 80), async_=True))
+        cases.append(_gen_case(rng, tier, maxb=rng.choice([2, 4, 7, 8, 16, 16, 64, 64]), nops=rng.randint(15, 80),
+                               async_=True))
     # a few histories with many renames of a path onto itself (finding F13, fixed by 100856b)
     for _ in range(3 if tier == "quick" else 40):
         cases.append(_gen_case(rng, tier, nops=rng.randint(10, 40), selfrename=True))
